@@ -34,7 +34,7 @@ class Space:
 
     def chain(self):
         s, out = self, []
-        while s is not None:
+        while s is not None and isinstance(s, Space):
             out.append(s)
             s = s.parent
         return out
@@ -270,6 +270,15 @@ class Shape:
                     return v
         return out if out is not None else NoneT()
 
+    def results(self, fi, env):
+        """Every informative return value, one per (return statement, forked path): obligations that must hold on EVERY path use this instead of result()."""
+        out = []
+        for node, v in self.run(fi, env):
+            if isinstance(v, NoneT) or is_unk(v) or (isinstance(v, DictT) and is_unk(v.key) and is_unk(v.val)):
+                continue
+            out.append((node, v))
+        return out
+
     # ------------------------------------------------------------------ expressions
     def ev(self, e, env):
         m = getattr(self, 'ev_' + type(e).__name__, None)
@@ -398,6 +407,12 @@ class Shape:
         if isinstance(le, Q) and isinstance(re_, Q) and le.dim and re_.dim and le.dim != re_.dim and not le.poly and not re_.poly:
             self.report('dim', e, 'comparison of quantities of different dimension: %s vs %s' % (le, re_))
         out = self.broadcast(e, l, r, BoolT())
+        # `np.bincount(x) > 0` (!= 0, >= 1) marks exactly the ids that occur in x
+        for side, other_node, ops in ((l, e.comparators[0], (ast.Gt, ast.NotEq)), (r, e.left, (ast.Lt, ast.NotEq))):
+            if isinstance(out, Arr) and isinstance(side, Arr) and getattr(side, 'counts_of', None) is not None and \
+                    ((isinstance(e.ops[0], ops) and const_value(other_node) == 0) or
+                     (isinstance(e.ops[0], ast.GtE if side is l else ast.LtE) and const_value(other_node) == 1)):
+                out.present_of = side.counts_of
         if isinstance(out, Arr):
             opn = type(e.ops[0]).__name__
             node = e
@@ -522,8 +537,9 @@ class Shape:
                 out.append(a)
             elif is_unk(a) or is_unk(b):
                 out.append(UNK)
-            elif (a.kind in IMPRECISE or b.kind in IMPRECISE) and a.root() is b.root():
-                out.append(UNK)         # parts of the same axis whose extents are not tracked: no verdict
+            elif (a.kind in IMPRECISE or b.kind in IMPRECISE) and (a.root() is b.root() or a.root().kind in IMPRECISE or b.root().kind in IMPRECISE or
+                                                                   is_unk(getattr(a.root(), 'parent', None)) or is_unk(getattr(b.root(), 'parent', None))):
+                out.append(UNK)         # parts of the same axis whose extents are not tracked, or parts of an axis that is itself unknown: no verdict
             else:
                 if (a.kind == 'Prefix' and a.parent is b) or (b.kind == 'Prefix' and b.parent is a):
                     self.report('extent', node, 'arrays over %s and %s are combined elementwise: the first stops at the highest id that occurs '
@@ -587,6 +603,11 @@ class Shape:
             if isinstance(v, Arr) and isinstance(v.elem, BoolT):
                 if v.axes and not is_unk(v.axes[0]) and not is_unk(ax) and v.axes[0] is not ax:
                     self.report('space', node, 'boolean mask over %s applied to an axis of space %s' % (v.axes[0], ax))
+                po = getattr(v, 'present_of', None)
+                if po is not None and isinstance(po.elem, Ix) and not is_unk(ax) and (ax is po.elem.space or (ax.kind == 'Prefix' and ax.parent is po.elem.space)):
+                    # counts[counts > 0] / sums[counts > 0]: one entry per id that occurs, in increasing order = the axis of np.unique(x)
+                    slots.append(('adv', [Space('Present', po.vid, None, of=po)]))
+                    continue
                 sub_ = Space('Sub', v.vid, ax, mask=getattr(v, 'mask', None))
                 if getattr(v, 'member_of', None) is not None:
                     sub_.info['of'] = v.member_of          # x[np.isin(x, y)]: the restriction is by membership in y (same provenance as intersect1d(x, y))
@@ -761,6 +782,12 @@ class Shape:
             if m in ('argmax', 'argmin'):
                 return self.argred(e, recv, self.axis_of(e, kw, 0), m)
             if m in ('astype', 'copy', 'squeeze'):
+                if m == 'astype' and e.args and isinstance(e.args[0], ast.Attribute) and e.args[0].attr == 'dtype' and isinstance(recv.elem, Ix):
+                    other = self.ev(e.args[0].value, env)
+                    if isinstance(other, Arr) and other is not recv and isinstance(other.elem, Ix) and other.vid != recv.vid:
+                        # ids cast to the dtype of ANOTHER id array: astype wraps silently, an id outside that dtype becomes a valid id of it
+                        self.report('dtype', e, 'ids `%s` are cast to the dtype of `%s`: astype wraps silently, so an id that does not fit that dtype (uint16 / int32 are accepted '
+                                    'by the loader) becomes another, valid id' % (unparse(e.func.value), unparse(e.args[0].value)))
                 r = Arr(recv.axes, recv.elem)
                 r.sorted = recv.sorted
                 return r
@@ -851,6 +878,12 @@ class Shape:
             return self.broadcast(e, args[0], args[1], elem_of(args[0]) if not isinstance(elem_of(args[0]), Unknown) else elem_of(args[1]))
         if np_ in ('isnan', 'isinf', 'isfinite', 'logical_not'):
             return Arr(a0.axes, BoolT()) if isinstance(a0, Arr) else BoolT()
+        if np_ in ('isin', 'in1d', 'intersect1d', 'setdiff1d', 'setxor1d') and len(args) >= 2 and const_value(kw.get('assume_unique')) is True:
+            # assume_unique=True is a promise about BOTH operands; a flattened table (one entry per row and slot) repeats its values
+            for k_, op_ in enumerate(args[:2]):
+                if isinstance(op_, Arr) and len(op_.axes) == 1 and getattr(op_.axes[0], 'kind', None) == 'Prod':
+                    self.report('unique', e, '`%s` is called with assume_unique=True although its operand `%s` is a flattened table whose values repeat: NumPy\'s sort-based '
+                                'path then misclassifies the repeated values' % (f, unparse(e.args[k_])))
         if np_ in ('isin', 'in1d') and len(args) >= 2:
             ea = elem_of(a0)
             b = args[1]
@@ -1012,7 +1045,10 @@ class Shape:
                         el = Q(qmul(w.elem, CNT).dim, w.elem.tags)
                     if w.axes and a0.axes and w.axes[0] is not a0.axes[0] and not is_unk(w.axes[0]) and not is_unk(a0.axes[0]):
                         self.report('space', e, 'bincount weights over %s but ids over %s' % (w.axes[0], a0.axes[0]))
-                return Arr((ax,), el)
+                bc_ = Arr((ax,), el)
+                if 'weights' not in kw and len(args) < 2:
+                    bc_.counts_of = a0
+                return bc_
             return UNK
         if np_ == 'ix_':
             return Tup(args + ['ix_'])
@@ -1447,6 +1483,13 @@ class Shape:
                 if isinstance(base.key, Ix) and isinstance(k, Ix) and base.key.space is not k.space:
                     self.report('space', s, 'dictionary keyed by %s is stored under a key of kind %s' % (base.key, k))
                 return
+            # x[<table of ids without spikes>] = nan : the rows of those ids are blanked (recorded on the array, which may be an alias passed to a helper)
+            if isinstance(base, Arr) and not aug and isinstance(s, ast.Assign) and (dotted(s.value) in ('np.nan', 'np.NaN', 'numpy.nan', 'math.nan') or
+                                                                                   (isinstance(s.value, ast.Call) and dotted(s.value.func) == 'float' and s.value.args and
+                                                                                    str(const_value(s.value.args[0])).lower() == 'nan')):
+                k_ = self.ev(t.slice, env)
+                if isinstance(k_, Arr) and len(k_.axes) == 1 and getattr(k_.axes[0], 'kind', None) == 'K' and k_.axes[0].key == 'nan':
+                    base.blanked = 'nan_idx'
             lhs = self.ev(t, env)
             if isinstance(lhs, Arr) and isinstance(v, Arr) and not aug:
                 self.broadcast(s, lhs, v, UNK)
